@@ -378,6 +378,9 @@ fn convert_expr(ctx: &mut ResolveContext, e_id: ExprNodeId) -> ExprNodeId {
             }
 
             let new_body = convert_expr(ctx, body);
+            // only the initialiser belongs to the module of this `let`: the statements that
+            // follow are resolved in the context the `let` itself was met in (as for LetRec)
+            ctx.current_module_context = prev_context;
             let new_then = then.map(|t| {
                 ctx.push_scope();
                 ctx.bind_pattern_locals(&pat.pat);
@@ -386,7 +389,6 @@ fn convert_expr(ctx: &mut ResolveContext, e_id: ExprNodeId) -> ExprNodeId {
                 converted
             });
 
-            ctx.current_module_context = prev_context;
             Expr::Let(pat, new_body, new_then).into_id(loc)
         }
         Expr::Lambda(params, r_type, body) => {
